@@ -136,10 +136,20 @@ def check_group(ctx):
 
 def check_env(ctx):
     s0 = ctx.fn("ldb_wfile_sync0", ENV)
-    ordered_before_success(ctx, "T1-env-sync-order", "dir,flush,fsync", s0,
-                           [lambda e: is_call(e, "ldb_wfile_sync_dir"), lambda e: is_call(e, "ldb_wfile_flush"),
-                            lambda e: is_call(e, "ldb_fsync")],
-                           "sync = directory sync, buffer flush, fsync in this order")
+    if ctx.P.has_fn("ldb_wfile_sync_dir"):
+        ordered_before_success(ctx, "T1-env-sync-order", "dir,flush,fsync", s0,
+                               [lambda e: is_call(e, "ldb_wfile_sync_dir"), lambda e: is_call(e, "ldb_wfile_flush"),
+                                lambda e: is_call(e, "ldb_fsync")],
+                               "sync = directory sync, buffer flush, fsync in this order")
+    else:
+        # the MANIFEST-only directory sync was folded into ldb_wfile_sync0: same order, the directory step being
+        # conditional (its presence for a MANIFEST is the T1-env-syncdir rule below)
+        ordered_before_success(ctx, "T1-env-sync-order", "dir,flush,fsync", s0,
+                               [lambda e: is_call(e, "ldb_wfile_flush"), lambda e: is_call(e, "ldb_fsync")],
+                               "sync = (directory sync,) buffer flush, fsync in this order")
+        from ..rules import never_after
+        never_after(ctx, "T1-env-sync-order", "dir-first", s0, lambda e: is_call(e, ("ldb_wfile_flush", "ldb_fsync")),
+                    lambda e: is_call(e, "ldb_sync_dir"), "the directory is synced before the file's own flush and fsync")
     fs = one_call(ctx, s0, "ldb_fsync")[0][2]
     ctx.check(argkey(fs, 0) == "file->fd", "T1-env-fsync-fd", "fd", s0.name, site(s0, fs),
               "fsync is applied to the file's own descriptor", "fsync is applied to %s" % argkey(fs, 0))
@@ -151,7 +161,8 @@ def check_env(ctx):
     must_pass_before_success(ctx, "T1-env-fsync", "fsync(2)", fsy, None,
                              lambda e: is_call(e, ("fsync", "fdatasync", "fcntl")),
                              "ldb_fsync returns 0 only after fsync/fdatasync/F_FULLFSYNC")
-    sd = ctx.fn("ldb_wfile_sync_dir", ENV)
+    # the helper that decides "directory sync only for a MANIFEST" - or, if it was folded into its caller, the caller
+    sd = ctx.fn("ldb_wfile_sync_dir", ENV) if ctx.P.has_fn("ldb_wfile_sync_dir") else s0
     must_pass_before_success(ctx, "T1-env-syncdir", "manifest", sd, None,
                              lambda e: is_call(e, "ldb_sync_dir"),
                              "for a MANIFEST file the directory is synced",
